@@ -19,7 +19,7 @@ DRIVER = 'Driver/C11.lean'
 REQUIRED_THEOREMS = ['CfVerif.C11.' + t for t in (
     'fetch_reads_only_matching_name', 'used_only_on_crc_match', 'decoder_encoder_id', 'elem_toVal_injective', 'load_eq_store',
     'load_never_wrong', 'fetch_after_insert_eq_store', 'downloaded_table_is_dict', 'json_proper_prefix_rejected',
-    'truncation_is_miss_partial', 'truncated_file_is_miss', 'missing_file_is_miss', 'unparsable_file_is_miss',
+    'truncation_is_miss', 'truncated_file_is_miss', 'missing_file_is_miss', 'unparsable_file_is_miss',
     'crash_then_restart_is_miss', 'miss_starts_download', 'miss_download_completes', 'hit_uses_cache', 'ro_never_written',
     'init_never_writes_files', 'collision_counterexample', 'gen_keys', 'gen_decoder', 'gen_encoder', 'gen_fetch_lookup',
     'gen_fetch_load', 'gen_insert', 'gen_init', 'gen_fetcher', 'gen_crc_is_u32', 'gen_type_strings_valid')]
